@@ -1,6 +1,9 @@
 package bt
 
-import "encoding/binary"
+import (
+	"encoding/binary"
+	"io"
+)
 
 // ReverseBytes reverses the bytes (little endian/big endian).
 // This is used when computing merkle trees in Bitcoin, for example.
@@ -21,4 +24,34 @@ func LittleEndianBytes(v uint32, l uint32) []byte {
 	binary.LittleEndian.PutUint32(buf, v)
 
 	return buf
+}
+
+// readChunkSize is the largest buffer readBytes allocates on the word of a
+// length prefix alone.
+const readChunkSize = 16 * 1024
+
+// readBytes reads exactly n bytes from r and returns them with the number of
+// bytes read. n usually comes from a length prefix in untrusted data, so the
+// buffer is not sized by it: it grows with the bytes that actually arrive.
+func readBytes(r io.Reader, n uint64) ([]byte, int, error) {
+	if n <= readChunkSize {
+		b := make([]byte, n)
+		read, err := io.ReadFull(r, b)
+		return b, read, err
+	}
+
+	b := make([]byte, 0, readChunkSize)
+	chunk := make([]byte, readChunkSize)
+	for uint64(len(b)) < n {
+		want := n - uint64(len(b))
+		if want > readChunkSize {
+			want = readChunkSize
+		}
+		read, err := io.ReadFull(r, chunk[:want])
+		b = append(b, chunk[:read]...)
+		if err != nil {
+			return b, len(b), err
+		}
+	}
+	return b, len(b), nil
 }
